@@ -500,12 +500,16 @@ func (s *Sim) runStep(r *Replica, stp Step, at string) {
 		if len(s.History) == 0 {
 			return
 		}
+		// Gas estimation (simulation context) of a transaction seen earlier; may run in parallel
+		// to block execution in a real node.
 		b := s.History[stp.Arg%len(s.History)]
 		if b.Decodable {
-			var stx struct {
-				Blob []byte `json:"untrusted_raw_value"`
+			var stx transaction.SignedTransaction
+			var tx transaction.Transaction
+			if cbor.Unmarshal(b.Raw, &stx) == nil && cbor.Unmarshal(stx.Blob, &tx) == nil {
+				_, _ = r.srv.EstimateGas(stx.Signature.PublicKey, &tx)
+				s.St.Inc("probe.estimate_gas_calls")
 			}
-			_ = stx
 		}
 	case "query":
 		if r.State.LastBlockHeight < 1 {
